@@ -92,35 +92,49 @@ theorem slice_suffix (d data : List Nat) (a q : Nat) (ha : a ≤ q) (hq : d <+: 
   obtain ⟨r, hr⟩ := hq
   rw [← hr]; simp
 
-theorem blocksOf_lines {d data : List Nat} (hd : d ≠ []) (hbf : BorderFree d) (offs : List Nat) (o : Nat)
+/-- the shape of the block list of one file: every block is empty, or ends with the delimiter, or is
+    followed by nothing but empty blocks -/
+def GoodBlocks (d : List Nat) : List (List Nat) → Prop
+  | [] => True
+  | b :: rest => (b = [] ∨ rest.flatten = [] ∨ d <:+ b) ∧ GoodBlocks d rest
+
+/-- any function of the text that distributes over a cut directly after a delimiter distributes over the
+    blocks -/
+theorem GoodBlocks.flatMap_eq {γ : Type} {d : List Nat} (L : List Nat → List γ) (hnil : L [] = [])
+    (happ : ∀ u v, d <:+ u → L (u ++ v) = L u ++ L v) (bs : List (List Nat)) (h : GoodBlocks d bs) :
+    bs.flatMap L = L bs.flatten := by
+  induction bs with
+  | nil => simp [hnil]
+  | cons b rest ih =>
+    obtain ⟨hb, hrest⟩ := h
+    rw [List.flatMap_cons, List.flatten_cons, ih hrest]
+    rcases hb with rfl | hr | hs
+    · simp [hnil]
+    · rw [hr, hnil]; simp
+    · exact (happ b _ hs).symm
+
+theorem blocksOf_good {d data : List Nat} (hd : d ≠ []) (hbf : BorderFree d) (offs : List Nat) (o : Nat)
     (hs : (o :: offs).Pairwise (· < ·)) (hlt : ∀ x ∈ o :: offs, x < data.length) :
-    (blocksOf data d (o :: offs)).flatMap (lines d) = lines d (data.drop (seekPos d data o)) := by
+    GoodBlocks d (blocksOf data d (o :: offs)) := by
   induction offs generalizing o with
-  | nil =>
-    have := blocksOf_flatten hd [] o hs hlt
-    simp only [blocksOf, lengthsOf, List.zip_cons_cons, List.zip_nil_right, List.map_cons, List.map_nil,
-      List.flatten_cons, List.flatten_nil, List.append_nil] at this
-    simp only [blocksOf, lengthsOf, List.zip_cons_cons, List.zip_nil_right, List.map_cons, List.map_nil,
-      List.flatMap_cons, List.flatMap_nil, List.append_nil, this]
+  | nil => simp [blocksOf, lengthsOf, GoodBlocks]
   | cons o' rest ih =>
     have hoo' : o < o' := (List.pairwise_cons.mp hs).1 o' (by simp)
     have ho' : o' < data.length := hlt o' (by simp)
     have hs' : (o' :: rest).Pairwise (· < ·) := (List.pairwise_cons.mp hs).2
-    have ih' := ih o' hs' (fun x hx => hlt x (List.mem_cons_of_mem _ hx))
+    have hlt' : ∀ x ∈ o' :: rest, x < data.length := fun x hx => hlt x (List.mem_cons_of_mem _ hx)
+    have ih' := ih o' hs' hlt'
     have hmono : seekPos d data o ≤ seekPos d data o' := seekPos_mono (by omega) (by omega)
-    rw [blocksOf_cons_cons, List.flatMap_cons, ih', readBlockFromFile_some hd (by omega),
-      show o + (o' - o) = o' by omega]
-    have hsplit := take_sub_append_drop data hmono
-    generalize hsl : (data.drop (seekPos d data o)).take (seekPos d data o' - seekPos d data o) = slice at hsplit ⊢
-    rw [← hsplit]
-    symm
-    apply lines_append hd hbf
+    rw [blocksOf_cons_cons]
+    refine ⟨?_, ih'⟩
+    rw [blocksOf_flatten hd rest o' hs' hlt', readBlockFromFile_some hd (by omega), show o + (o' - o) = o' by omega]
+    generalize hsl : (data.drop (seekPos d data o)).take (seekPos d data o' - seekPos d data o) = slice
     by_cases hemp : slice = []
     · exact Or.inl hemp
     by_cases hend : data.drop (seekPos d data o') = []
     · exact Or.inr (Or.inl hend)
     refine Or.inr (Or.inr ?_)
-    have hlt' : seekPos d data o' < data.length := by
+    have hlt'' : seekPos d data o' < data.length := by
       rcases Nat.lt_or_ge (seekPos d data o') data.length with h | h
       · exact h
       · exact absurd (List.drop_eq_nil_of_le h) hend
@@ -129,10 +143,8 @@ theorem blocksOf_lines {d data : List Nat} (hd : d ≠ []) (hbf : BorderFree d) 
       · exact h
       · have : seekPos d data o' - seekPos d data o = 0 := by omega
         rw [this] at hsl; simp at hsl; exact absurd hsl hemp
-    -- the end of the block is directly after an occurrence of the delimiter …
     rcases seekPos_spec (d := d) (data := data) (pos := o') (by omega) (by omega) with ⟨q', hq'o, hq'e, hq'p, _⟩ | ⟨he, _⟩
-    · -- … and the block starts at or before that occurrence
-      have hstart : seekPos d data o ≤ q' := by
+    · have hstart : seekPos d data o ≤ q' := by
         by_cases ho0 : o = 0
         · subst ho0; rw [seekPos_zero]; omega
         · rcases seekPos_spec (d := d) (data := data) (pos := o) (by omega) (by omega) with ⟨q, hqo, hqe, hqp, hqmin⟩ | ⟨he, _⟩
@@ -152,5 +164,65 @@ theorem blocksOf_lines {d data : List Nat} (hd : d ≠ []) (hbf : BorderFree d) 
       rw [← hsl, hq'e]
       exact slice_suffix d data _ q' hstart hq'p
     · omega
+
+theorem blocksOf_lines {d data : List Nat} (hd : d ≠ []) (hbf : BorderFree d) (offs : List Nat) (o : Nat)
+    (hs : (o :: offs).Pairwise (· < ·)) (hlt : ∀ x ∈ o :: offs, x < data.length) :
+    (blocksOf data d (o :: offs)).flatMap (lines d) = lines d (data.drop (seekPos d data o)) := by
+  rw [GoodBlocks.flatMap_eq (lines d) (by simp [lines, linesAux_nil])
+    (fun u v hu => linesAux_append hd hbf [] u v hu) _ (blocksOf_good hd hbf offs o hs hlt),
+    blocksOf_flatten hd offs o hs hlt]
+
+/-! ### universal newlines (`linedelimiter=None`) -/
+
+theorem translateNL_cons_ne (c : Nat) (rest : List Nat) (hc : c ≠ 13) : translateNL (c :: rest) = c :: translateNL rest :=
+  translateNL.eq_4 c rest (fun _ h _ => hc h) hc
+
+theorem translateNL_cr (rest : List Nat) (h : ∀ r, rest ≠ 10 :: r) : translateNL (13 :: rest) = 10 :: translateNL rest :=
+  translateNL.eq_3 rest (fun r hr => h r hr)
+
+/-- the translation `\r\n → \n`, `\r → \n` distributes over a cut after a `\n` -/
+theorem translateNL_append (u v : List Nat) (hu : [10] <:+ u) :
+    translateNL (u ++ v) = translateNL u ++ translateNL v ∧ [10] <:+ translateNL u := by
+  induction hn : u.length using Nat.strongRecOn generalizing u with
+  | _ n ih =>
+    match u, hu with
+    | [], hu => exact absurd (List.suffix_nil.mp hu) (by simp)
+    | [c], hu =>
+      have hc : c = 10 := by
+        rcases List.suffix_cons_iff.mp hu with h | h
+        · simpa using h.symm
+        · exact absurd (List.suffix_nil.mp h) (by simp)
+      subst hc
+      rw [List.singleton_append, translateNL_cons_ne 10 _ (by decide), translateNL_cons_ne 10 _ (by decide),
+        translateNL.eq_1]
+      exact ⟨rfl, List.suffix_refl _⟩
+    | c :: c' :: rest, hu =>
+      have hsuf : [10] <:+ c' :: rest := by
+        rcases List.suffix_cons_iff.mp hu with h | h
+        · simp at h
+        · exact h
+      by_cases hc : c = 13
+      · subst hc
+        by_cases hc' : c' = 10
+        · subst hc'
+          cases rest with
+          | nil =>
+            rw [List.cons_append, List.cons_append, List.nil_append, translateNL.eq_2, translateNL.eq_2, translateNL.eq_1]
+            exact ⟨rfl, List.suffix_refl _⟩
+          | cons r rs =>
+            have hsuf2 : [10] <:+ r :: rs := by
+              rcases List.suffix_cons_iff.mp hsuf with h | h
+              · simp at h
+              · exact h
+            obtain ⟨i1, i2⟩ := ih (r :: rs).length (by subst hn; simp) (r :: rs) hsuf2 rfl
+            rw [List.cons_append, List.cons_append, translateNL.eq_2, translateNL.eq_2, i1]
+            exact ⟨rfl, i2.trans (List.suffix_cons _ _)⟩
+        · obtain ⟨i1, i2⟩ := ih (c' :: rest).length (by subst hn; simp) (c' :: rest) hsuf rfl
+          rw [List.cons_append, translateNL_cr ((c' :: rest) ++ v) (by intro r hr; simp at hr; exact hc' hr.1),
+            translateNL_cr (c' :: rest) (by intro r hr; simp at hr; exact hc' hr.1), i1]
+          exact ⟨rfl, i2.trans (List.suffix_cons _ _)⟩
+      · obtain ⟨i1, i2⟩ := ih (c' :: rest).length (by subst hn; simp) (c' :: rest) hsuf rfl
+        rw [List.cons_append, translateNL_cons_ne c _ hc, translateNL_cons_ne c _ hc, i1]
+        exact ⟨rfl, i2.trans (List.suffix_cons _ _)⟩
 
 end Dask.TextBlocks
